@@ -68,7 +68,8 @@ def _callback(ev):
         ver = a.get("version")
         t = {"id": "suite-%d" % len(KEEP), "kind": "suite",
              "cfg": {"version": ver if ver in ("gfa1", "gfa2") else "none",
-                     "vlevel": a.get("vlevel") if isinstance(a.get("vlevel"), int) else 1},
+                     "vlevel": a.get("vlevel") if isinstance(a.get("vlevel"), int) else 1,
+                     "dialect": "standard"},
              "ev": [], "src": [], "poolobj": project.Pool(), "dead": False,
              "unmodelled": a.get("dialect") not in ("standard", None)}
         KEEP.append(gfa)
